@@ -1,5 +1,6 @@
 import CLModel.Proto
 import CLModel.Checks.Android
+import CLModel.Checks.AndroidParser
 namespace Ops.C09
 open Proto Android
 
@@ -88,6 +89,172 @@ def opApos (toks : List String) : String :=
     | none => "bad-args"
   | _ => "bad-args"
 
+/-! ### round 4: the parser model (`AndroidP`) -/
+open AndroidP in
+/-- node tokens (prefix form):
+    `E <name> <k> (<attr name> <attr value>)^k <n> node^n` | `T <data>` | `C <data>` | `M <data>` (comment) |
+    `P <target> <data>` | `D <name> <publicId> <systemId|-> <internalSubset|->` -/
+partial def parseDNode : List String → Option (DNode × List String)
+  | "T" :: d :: rest => (parseText d).map (fun d => (.text d, rest))
+  | "C" :: d :: rest => (parseText d).map (fun d => (.cdata d, rest))
+  | "M" :: d :: rest => (parseText d).map (fun d => (.comment d, rest))
+  | "P" :: t :: d :: rest => do
+    let t ← parseText t
+    let d ← parseText d
+    pure (.pi t d, rest)
+  | "D" :: n :: p :: s :: i :: rest => do
+    let n ← parseText n
+    let p ← parseText p
+    let s ← if s == "-" then pure none else (parseText s).map some
+    let i ← if i == "-" then pure none else (parseText i).map some
+    pure (.doctype n p s i, rest)
+  | "E" :: name :: k :: rest => do
+    let name ← parseText name
+    let k ← parseNat k
+    let rec attrs : Nat → List String → Option (List (List Nat × List Nat) × List String)
+      | 0, r => some ([], r)
+      | j + 1, a :: v :: r => do
+        let a ← parseText a
+        let v ← parseText v
+        let (as, r') ← attrs j r
+        pure ((a, v) :: as, r')
+      | _, _ => none
+    let (as, rest) ← attrs k rest
+    match rest with
+    | n :: rest => do
+      let n ← parseNat n
+      let (cs, rest) ← parseDNodes n rest
+      pure (.element name as cs, rest)
+    | [] => none
+  | _ => none
+where
+  parseDNodes : Nat → List String → Option (List AndroidP.DNode × List String)
+    | 0, r => some ([], r)
+    | j + 1, r => do
+      let (c, r') ← parseDNode r
+      let (cs, r'') ← parseDNodes j r'
+      pure (c :: cs, r'')
+
+open AndroidP in
+/-- `none` | `err <contents>` | `doc <contents> <n> node^n` -/
+def parseCtx : List String → Option (Option (List Nat × Parsed) × List String)
+  | "none" :: rest => some (none, rest)
+  | "err" :: c :: rest => (parseText c).map (fun c => (some (c, .error), rest))
+  | "doc" :: c :: n :: rest => do
+    let c ← parseText c
+    let n ← parseNat n
+    let (cs, rest) ← parseDNode.parseDNodes n rest
+    pure (some (c, .doc cs), rest)
+  | _ => none
+
+def showLit (tag : String) : Option AndroidP.Lit → String
+  | some l => s!"{tag}:{showText l.all};{showText l.val}"
+  | none => s!"{tag}:-"
+
+def showOptText : Option (List Nat) → String
+  | some t => showText t
+  | none => "-"
+
+/-- one entry: class, `all`, `key`, `raw_val` and the class specific literals; junk with its counter value -/
+def showEntry (e : AndroidP.Entry) (ctr : Option Nat) : String :=
+  match e with
+  | .wrapper .. => s!"W {showOptText e.key?} {showText e.all} {showText e.rawVal}"
+  | .white _ => s!"S {showOptText e.key?} {showText e.all} {showText e.rawVal}"
+  | .comment _ => s!"K {showOptText e.key?} {showText e.all} {showText e.rawVal}"
+  | .entity pre inner _ _ _ _ valLit =>
+    s!"N {showOptText e.key?} {showText e.all} {showText e.rawVal} {showText valLit} {showLit "p" pre} {showLit "i" inner}"
+  | .junk _ =>
+    let c := match ctr with
+      | some c => toString c
+      | none => "?"
+    s!"J {c} {showText e.all} {showText e.rawVal}"
+
+def showEntries (start : Nat) (es : List AndroidP.Entry) : String :=
+  " | ".intercalate ("ok" :: (es.zip (AndroidP.junkCounters start es)).map (fun p => showEntry p.1 p.2))
+
+/-- c09.toxml <node> : `node.toxml()` -/
+def opToxml (toks : List String) : String :=
+  match parseDNode toks with
+  | some (n, []) =>
+    match n.toxml? with
+    | some x => s!"ok {showText x}"
+    | none => "raise"
+  | _ => "bad-args"
+
+/-- c09.walk <only_localizable 0|1> <XMLJunk.junkid before> <ctx> : the entries of `AndroidParser.walk` -/
+def opWalk (toks : List String) : String :=
+  match toks with
+  | ol :: start :: rest =>
+    match parseNat start, parseCtx rest with
+    | some start, some (ctx, []) =>
+      match AndroidP.walk ctx (ol == "1") with
+      | some es => showEntries start es
+      | none => "raise"
+    | _, _ => "bad-args"
+  | _ => "bad-args"
+
+/-- c09.norm <text> : `normalize(text)` and `text.count("\n")` as walk / handleComment count it -/
+def opNorm (toks : List String) : String :=
+  match toks with
+  | [t] =>
+    match parseText t with
+    | some t => s!"ok {showText (AndroidP.normalize t)} {AndroidP.count Gen.TablesAndroid.walk_nl t} {AndroidP.count Gen.TablesAndroid.comment_nl t}"
+    | none => "bad-args"
+  | _ => "bad-args"
+
+/-- c09.pos <offset> <ctx> : `position(offset)` and `value_position(offset)` of every entry of `walk()` -/
+def opPos (toks : List String) : String :=
+  match toks with
+  | off :: rest =>
+    match parseInt off, parseCtx rest with
+    | some off, some (ctx, []) =>
+      match AndroidP.walk ctx false with
+      | some es => " | ".intercalate ("ok" :: es.map (fun e =>
+          let p := e.position off
+          let v := e.valuePosition off
+          s!"{p.1} {p.2} {v.1} {v.2}"))
+      | none => "raise"
+    | _, _ => "bad-args"
+  | _ => "bad-args"
+
+/-- c09.doccheck <ref ctx> <l10n ctx> : both documents through `walk(only_localizable=True)`, then every localized
+    entity that the reference has through `AndroidChecker.check` -/
+def opDocCheck (toks : List String) : String :=
+  match parseCtx toks with
+  | some (rctx, rest) =>
+    match parseCtx rest with
+    | some (lctx, []) =>
+      match AndroidP.walk rctx true, AndroidP.walk lctx true with
+      | some res, some les =>
+        " | ".intercalate ("ok" :: (AndroidP.docCheck res les).map (fun p =>
+          match p.2 with
+          | some rs => " ; ".intercalate (showText p.1 :: rs.map (fun x =>
+              let bad := if x.2.1 == 0 && x.2.2 ≥ 0 then "" else s!"?{x.2.1},"
+              s!"{showSev x.1.sev} {bad}{x.2.2} {showMsg x.1.msg}"))
+          | none => s!"{showText p.1} ; raise"))
+      | _, _ => "raise"
+    | _ => "bad-args"
+  | none => "bad-args"
+
+/-- c09.wrap <raw> <ctx> : `e.wrap(raw)` for every AndroidEntity of `walk(only_localizable=True)` -/
+def opWrap (toks : List String) : String :=
+  match toks with
+  | raw :: rest =>
+    match parseText raw, parseCtx rest with
+    | some raw, some (ctx, []) =>
+      match AndroidP.walk ctx true with
+      | some es => " | ".intercalate ("ok" :: (es.filter AndroidP.Entry.isEntity).map (fun e =>
+          match e.wrap raw with
+          | .ok (k, v, a) => s!"{showText k} {showText v} {showText a}"
+          | .error .unbound => "raise:UnboundLocalError"
+          | .error .value => "raise:ValueError"
+          | .error .notEntity => "raise:?"))
+      | none => "raise"
+    | _, _ => "bad-args"
+  | _ => "bad-args"
+
 def ops : List (String × (List String → String)) :=
-  [("android.check", opCheck), ("android.params", opParams), ("android.apos", opApos)]
+  [("android.check", opCheck), ("android.params", opParams), ("android.apos", opApos),
+   ("c09.toxml", opToxml), ("c09.walk", opWalk), ("c09.norm", opNorm), ("c09.pos", opPos),
+   ("c09.doccheck", opDocCheck), ("c09.wrap", opWrap)]
 end Ops.C09
